@@ -234,14 +234,14 @@ fn manifest_yaml_ex_buf(
 					}
 					_ => buf.push(' '),
 				}
-				let extra_padding = match &item {
-					Val::Arr(a) => !a.is_empty(),
-					Val::Obj(o) => !o.is_empty(),
-					_ => false,
-				};
 				let prev_len = cur_padding.len();
-				if extra_padding {
-					cur_padding.push_str(&options.padding);
+				match &item {
+					// Nested array starts on its own line, padded like any other block
+					Val::Arr(a) if !a.is_empty() => cur_padding.push_str(&options.padding),
+					// Object continues on the line of "- ": its other fields have to line up with the
+					// first one, whatever the configured padding is
+					Val::Obj(o) if !o.is_empty() => cur_padding.push_str("  "),
+					_ => {}
 				}
 				in_description_frame(
 					|| format!("elem <{i}> manifestification"),
